@@ -226,6 +226,15 @@ func runConcurrent(c *Ctx) {
 					gr := r.Fork()
 					go func(g int) {
 						defer wg.Done()
+						defer func() { // a panic out of WriteLevel is a violation, not a driver crash
+							if p := recover(); p != nil {
+								errMu.Lock()
+								if firstErr == "" {
+									firstErr = fmt.Sprintf("goroutine %d: WriteLevel panicked: %v", g, p)
+								}
+								errMu.Unlock()
+							}
+						}()
 						<-start
 						for _, x := range cc.progs[g] {
 							n, err := w.WriteLevel(zerolog.Level(x.level), x.line)
@@ -247,6 +256,15 @@ func runConcurrent(c *Ctx) {
 					gr := r.Fork()
 					go func() {
 						defer wg.Done()
+						defer func() {
+							if p := recover(); p != nil {
+								errMu.Lock()
+								if firstErr == "" {
+									firstErr = fmt.Sprintf("Trigger panicked: %v", p)
+								}
+								errMu.Unlock()
+							}
+						}()
 						<-start
 						for k := gr.Intn(40); k > 0; k-- {
 							runtime.Gosched()
@@ -261,7 +279,7 @@ func runConcurrent(c *Ctx) {
 				close(start)
 				wg.Wait()
 				D := append([]dcallT{}, rec.calls...)
-				w.Close()
+				closeQuietly(w)
 				runs++
 				cs := &caseT{Cond: cc.Cond, Trig: cc.Trig, LW: true}
 				info := map[string]interface{}{"conditional_level": cc.Cond, "trigger_level": cc.Trig, "goroutines": G, "lines_each": cc.K, "explicit_trigger": cc.Explicit}
